@@ -156,6 +156,10 @@ class PropSpec:
     technique: str = ""
     design_ref: str = ""
     not_decided: str = ""
+    # structural rule -> decision-table rules of the same check that decide the same clause by abstract interpretation:
+    # when a structural rule cannot recognise the shape of the code (UNKNOWN, or fewer instances than the floor) and
+    # every listed table rule is fully PROVED, the clause counts as decided by the tables alone (recorded as such).
+    fallback: Dict[str, tuple] = field(default_factory=dict)
 
 
 def run_check(spec: PropSpec, prog: Program, tier: str = "quick") -> Ctx:
@@ -184,6 +188,7 @@ def run_property(spec: PropSpec, tier: str, seed: int, *, write: bool = True, qu
         errors.append(f"internal error: {type(e).__name__}: {e}\n{traceback.format_exc()}")
 
     obs = ctx.obs if ctx else []
+    by_table = apply_fallback(spec, ctx) if ctx else 0
     known = [k for k in load_known() if k.prop == spec.pid]
     open_keys = {(k.rule, k.site): k for k in known if k.status == "open"}
 
@@ -195,7 +200,11 @@ def run_property(spec: PropSpec, tier: str, seed: int, *, write: bool = True, qu
     # instance floors
     for rule, floor in spec.floors.items():
         n = sum(1 for o in obs if o.rule == rule or o.rule.startswith(rule + "/"))
-        if n < floor:
+        if n < floor and ctx is not None and _tables_ok(spec, ctx, rule):
+            ctx.note(f"rule {rule}: {n} instances recognised (floor {floor}); the clause is decided by the decision "
+                     f"table(s) {', '.join(_fallback_for(spec, rule))} alone on this tree")
+            by_table += 1
+        elif n < floor:
             errors.append(f"rule {rule}: {n} instances matched, floor is {floor} (vanished anchor?)")
 
     # positive controls
@@ -260,6 +269,7 @@ def run_property(spec: PropSpec, tier: str, seed: int, *, write: bool = True, qu
     inv = prog.inventory() if prog else {}
     summary = (f"{spec.pid} [{tier}] obligations={len(obs)} proved={len(proved)} refuted={len(refuted)} "
                f"(known={len(listed)}) unknown={len(unknown)} controls={controls_ok}/{controls_run}"
+               + (f" by-table={by_table}" if by_table else "")
                + (f" audit={audit['flagged']}/{audit['generated']}" if audit else "")
                + f" modules={inv.get('modules')} functions={inv.get('functions')} -> "
                + {0: "OK", 1: "VIOLATION", 2: "ANALYSIS-ERROR"}[code])
@@ -284,6 +294,7 @@ def run_property(spec: PropSpec, tier: str, seed: int, *, write: bool = True, qu
             "analysed": inv,
             "positive_controls": {"run": controls_run, "flagged": controls_ok},
             "floors": spec.floors,
+            "decided_by_table_only": by_table,
             "checker_cmd": f"./check {spec.pid} --tier {tier}",
             "trusted_base": spec.assumptions,
             "notes": (ctx.notes if ctx else []) + errors,
@@ -308,6 +319,39 @@ def run_property(spec: PropSpec, tier: str, seed: int, *, write: bool = True, qu
         print("\n".join(out))
         sys.stdout.flush()
     return code
+
+
+def _fallback_for(spec: PropSpec, rule: str) -> tuple:
+    for r, tables in spec.fallback.items():
+        if rule == r or rule.startswith(r + "/") or rule.startswith(r + "."):
+            return tuple(tables)
+    return ()
+
+
+def _tables_ok(spec: PropSpec, ctx: Ctx, rule: str) -> bool:
+    tables = _fallback_for(spec, rule)
+    if not tables:
+        return False
+    for t in tables:
+        obs = [o for o in ctx.obs if o.rule == t or o.rule.startswith(t + "/")]
+        if len(obs) < max(1, spec.floors.get(t, 1)) or any(o.verdict != PROVED for o in obs):
+            return False
+    return True
+
+
+def apply_fallback(spec: PropSpec, ctx: Ctx) -> int:
+    """UNKNOWN obligations of structural rules whose clause is also decided by fully proved decision tables."""
+    n = 0
+    for o in ctx.obs:
+        if o.verdict == UNKNOWN and _tables_ok(spec, ctx, o.rule):
+            tables = ", ".join(_fallback_for(spec, o.rule))
+            o.verdict = PROVED
+            o.why = f"[shape outside the structural rule's vocabulary: {o.why}] clause decided by decision table(s) {tables}"
+            o.detail = dict(o.detail or {}, decided_by="table")
+            n += 1
+    if n:
+        ctx.note(f"{n} structural obligation(s) were outside the rule vocabulary and are decided by decision tables only")
+    return n
 
 
 def _by_rule(obs: List[Ob]) -> dict:
